@@ -30,10 +30,11 @@ pub fn compare(m: &MOut, j: &Outcome) -> Cmp {
 		(MOut::Err(e), _) if e.undecided() => Cmp::Undecided(format!("{e:?}")),
 		(_, Outcome::Panic(p)) => Cmp::Disagree(format!("jrsonnet panicked: {p}")),
 		(MOut::Val(a), Outcome::Val(b)) => {
-			let (Ok(x), Ok(y)) = (serde_json::from_str::<Value>(a), serde_json::from_str::<Value>(b)) else {
+			// own strict parser: numbers are converted with correctly rounded f64::from_str on both sides
+			let (Ok(x), Ok(y)) = (crate::json::parse(a), crate::json::parse(b)) else {
 				return Cmp::Disagree(format!("output is not JSON: model {a} / jrsonnet {b}"));
 			};
-			if json_eq(&x, &y) {
+			if x.same(&y) {
 				Cmp::Agree
 			} else {
 				Cmp::Disagree(format!("values differ: reference {a}  jrsonnet {b}"))
